@@ -40,8 +40,8 @@ ASSUMPTIONS = [
     "si.nff has one non-increasing row pair (1839.0, 1838.90 eV): energies in [1838.80, 1860] eV are not judged for "
     "Si and compounds containing Si (numpy.interp is undefined there)",
     "constants r_e, N_A, h, c are the CODATA 2006 values quoted in constants.py",
-    "sequence arguments are passed as lists to scattering_factors/sld/xray_sld/f0 and as numpy arrays to "
-    "index_of_refraction/mirror_reflectivity (whose wavelength= argument does not accept a plain list)",
+    "a 'vector' argument is a plain list or a numpy array: lists are always used for scattering_factors/sld/"
+    "xray_sld/f0 (as the repository's tests do) and in a quarter of the index_of_refraction/mirror_reflectivity calls",
     "where rho is NaN (f1 not available) the complex index of refraction may be NaN in both parts",
     "Xray.sld of an ion is not judged (the documented N = rho/m N_A does not say whether m is the ion mass)",
     "f0 -> Z - charge as Q -> 0 is judged at Q = 0 and 1e-9 with |diff| <= 0.05 electrons (largest over the file: 0.038)",
@@ -260,7 +260,7 @@ def check_factors(ctx, value, strict_ends=False):
             if acc is None:
                 ctx.count("excluded:nonmonotonic-interval")
                 continue
-            if strict_ends and mode == "E" and e in (tab.emin, tab.emax) and col == 2:
+            if strict_ends and mode == "E" and ((e in (tab.emin, tab.emax) and col == 2) or (e == tab.emax and col == 1)):
                 acc = (acc[0], acc[1], False, acc[3])
             judge(got, acc, "c05:factors:%s:f%d" % (route, col), "%s f%d(%s=%r)" % (tab.symbol, col, route, arg[i]),
                   case, tab, e)
@@ -395,8 +395,9 @@ def check_compound(ctx, value):
     tab = nff(table[keys[ref_idx % len(keys)][0]].symbol)
     es = [to_energy(tab, sp) for sp in especs]
     tabs = [nff(table[kk[0]].symbol) for kk in keys]
-    scalar = (not vec) and len(es) == 1
-    cls = ["compound", "route:" + mode, "call:" + ("scalar" if scalar else "vector"),
+    vec = int(vec)                      # 0 scalar if one energy, 1 numpy arrays, 2 plain lists
+    scalar = (vec == 0) and len(es) == 1
+    cls = ["compound", "route:" + mode, "call:" + ("scalar" if scalar else "vector" if vec < 2 else "vector-as-list"),
            "depth:%d" % min(fa.tree_depth(tree), 4), "atoms:%d" % min(len(keys), 6)]
     cls += sorted(set("atom:" + spec_class(sp) for sp in specs))
     hot = False
@@ -513,8 +514,9 @@ def check_compound(ctx, value):
                                     % (density, key, arg[i], s, float(ga), s2, float(gb)), case)
 
     # 7. index of refraction
-    nval = arg[0] if scalar else np.array(arg)
-    n = lib_call(case, "index_of_refraction", lambda: xsf.index_of_refraction(f, density=density, **{key: nval}))
+    nval = arg[0] if scalar else (list(arg) if vec == 2 else np.array(arg))
+    form = "[list-%s]" % key if (vec == 2 and not scalar) else ""
+    n = lib_call(case, "index_of_refraction" + form, lambda: xsf.index_of_refraction(f, density=density, **{key: nval}))
     if scalar:
         if not is_scalar(np, n):
             raise Violation("c05:refraction:shape", "scalar call returned %r" % (type(n),), case)
@@ -534,11 +536,11 @@ def check_compound(ctx, value):
         judge_sld(-z.imag, r_im, "c05:refraction:%s:imag" % route, "-Im " + what, case, factor=c, floor=1e-300)
 
     # 8. thick-mirror reflectivity
-    ang = angles[0] if (len(angles) == 1 and scalar) else np.array(angles)
+    ang = angles[0] if (len(angles) == 1 and scalar) else (list(angles) if vec == 2 else np.array(angles))
     def mirror():
         with np.errstate(all="ignore"):      # NaN factors below 29 eV make numpy warn
             return xsf.mirror_reflectivity(f, density=density, angle=ang, roughness=rough, **{key: nval})
-    R = lib_call(case, "mirror_reflectivity", mirror)
+    R = lib_call(case, "mirror_reflectivity" + form, mirror)
     if not (isinstance(R, np.ndarray) and R.shape == (len(angles), len(es))):
         raise Violation("c05:reflectivity:shape", "angles %d, energies %d -> %r"
                         % (len(angles), len(es), getattr(R, "shape", type(R))), case)
@@ -735,7 +737,7 @@ def compound_strategy(pool, depth):
                      st.floats(1e-3, 50.0), st.integers(0, 50),
                      st.lists(energy_spec_compound(), min_size=1, max_size=4), st.sampled_from(["E", "W"]),
                      st.floats(1e-3, 1e3), st.lists(st.floats(1e-4, 90.0), min_size=1, max_size=3),
-                     st.floats(0.0, 50.0), st.booleans()).map(list)
+                     st.floats(0.0, 50.0), st.sampled_from([0, 1, 1, 2])).map(list)
 
 
 def task_compounds(ctx, n, depth):
